@@ -304,9 +304,11 @@ class HalfSplineDisk(QuarterSplineDisk):
 class SplineDisk(HalfSplineDisk):
     """Sketch for full oval, elliptical and circular shapes"""
 
+    # indexes refer to operations of a lofted shape, i.e. to faces in the order of
+    # self.grid (4 core faces first), not to self.faces
     chops: ClassVar = [
-        [1],  # axis 0
-        [1, 2, 5, 7, 8, 11],  # axis 1
+        [4],  # axis 0
+        [4, 5, 7, 8, 9, 11],  # axis 1
     ]
 
     def __init__(
